@@ -7,7 +7,7 @@
    The theorem is for EVERY carrier V and EVERY interpretation I of the operators (so no totalised
    division or power can make it true for the wrong reason), every tree, every depth. *)
 From Coq Require Import List String QArith.
-From Bq Require Import Expr ExprFacts RepModel Routine Compare Compile Preprocess CompileFacts CompileTop.
+From Bq Require Import Expr ExprFacts RepModel Routine Compare Compile Preprocess CompileFacts CompileTop Derived DerivedFacts.
 From BqGen Require Import GenTables.
 Import ListNotations.
 Open Scope string_scope.
@@ -51,3 +51,10 @@ Print Assumptions C01_seq_refuted.
 Example C01_nonvacuous :
   exists t, compile_routine C01_example = Ok t /\ cinput_params t = ["M"; "N"].
 Proof. eexists. split; vm_compute; reflexivity. Qed.
+
+(* compile_routine(..., derived_resources=()) is plain compilation: with no calculator the traversal with derived
+   resources (Derived.go_d) is `go` itself, for every carrier *)
+Theorem C01_no_derived_resources_is_plain_compilation : forall D ev statusD fvD fuel r inputs,
+  go_d (D := D) ev statusD fvD [] fuel r inputs = go ev statusD fvD fuel r inputs.
+Proof. exact go_d_nil. Qed.
+Print Assumptions C01_no_derived_resources_is_plain_compilation.
